@@ -439,3 +439,87 @@ M("c11-period-normalizes-end", "C11", "C11/TZ-TAG",
   (PR, "        else:\n            end = end_or_duration\n            duration = end - start", "        else:\n            end = normalize_pytz(end_or_duration)\n            duration = end - start"),
   (PR, "from .timezone import tzid_from_dt, tzid_from_tzinfo, tzp", "from .timezone import tzid_from_dt, tzid_from_tzinfo, tzp\nfrom .tools import normalize_pytz"))
 M("c11-twin-rename", "C11", "silent", (PR, "        tzid = tzid_from_dt(start)\n        if tzid and tzid != 'UTC':", "        zone_id = tzid_from_dt(start)\n        tzid = zone_id\n        if tzid and tzid != 'UTC':"))
+
+# ---------------------------------------------------------------- C04
+Z, T = "timezone/zoneinfo.py", "timezone/tzp.py"
+M("c04-vdate-narrow-handler", "C04", "C04/ESCAPE",
+  (PR, "            return date(*timetuple)\n        except Exception:", "            return date(*timetuple)\n        except KeyError:"))
+M("c04-vdatetime-narrow-handler", "C04", "C04/ESCAPE",
+  (PR, "        except Exception as e:\n            raise ValueError(f'Wrong datetime format: {ical}') from e", "        except ValueError as e:\n            raise ValueError(f'Wrong datetime format: {ical}') from e"))
+M("c04-stack-guard-removed", "C04", "C04/ESCAPE",
+  (C, "                if not stack:\n                    # The stack is currently empty, the input must be invalid\n                    raise ValueError('END encountered without an accompanying BEGIN!')\n", ""))
+M("c04-revert-duration-wrap", "C04", "C04/ESCAPE",
+  (PR, "        except OverflowError:\n            raise ValueError(f'iCalendar duration out of range: {ical}')\n", "        except KeyError:\n            pass\n"))
+M("c04-revert-period-wrap", "C04", "C04/ESCAPE",
+  (PR, "        except (TypeError, OverflowError) as e:\n            # e.g. date and datetime mixed", "        except (KeyError,) as e:\n            # e.g. date and datetime mixed"))
+M("c04-revert-oserror", "C04", "C04/",
+  (Z, "        except OSError:\n            # e.g. IsADirectoryError for \"America\", OSError for over-long names\n            pass\n", ""))
+M("c04-revert-vtimezone-wrap", "C04", "C04/ESCAPE",
+  (C, "                    try:\n                        tzp.cache_timezone_component(component)\n                    except ValueError:\n                        raise\n                    except Exception as e:\n                        raise ValueError(f'Invalid VTIMEZONE {component[\"TZID\"]!r}: {e!r}') from e\n",
+      "                    tzp.cache_timezone_component(component)\n"))
+M("c04-lenient-break", "C04", "C04/LENIENT",
+  (C, "                component.errors.append((None, str(e)))\n                continue", "                component.errors.append((None, str(e)))\n                break"))
+M("c04-lenient-no-record", "C04", "C04/LENIENT",
+  (C, "                    component.errors.append((uname, str(e)))\n", "                    pass\n"))
+M("c04-todo-lenient", "C04", "C04/LENIENT",
+  (C, "    name = 'VTODO'\n", "    name = 'VTODO'\n    ignore_exceptions = True\n"))
+M("c04-tzid-guard-dropped", "C04", "C04/ESCAPE",
+  (C, "if vals.upper() == 'VTIMEZONE' and 'TZID' in component:", "if vals.upper() == 'VTIMEZONE':"))
+M("c04-new-unguarded-subscript", "C04", "C04/ESCAPE",
+  (C, "            uname = name.upper()\n", "            uname = name.upper()\n            first = vals[0]\n"))
+M("c04-while-added", "C04", "C04/",
+  (C, "            uname = name.upper()\n", "            uname = name.upper()\n            while uname.startswith(' '):\n                uname = uname[1:]\n"))
+M("c04-twin-rename-e", "C04", "silent",
+  (C, "            except ValueError as e:\n                # if unable to parse a line within a component", "            except ValueError as e:\n                # (renamed comment) if unable to parse a line within a component"))
+
+# ---------------------------------------------------------------- C10
+M("c10-revert-to-ical-write", "C10", "C10/PURE",
+  (PR, "        if tzid == 'UTC':\n            s += \"Z\"\n        return s.encode('utf-8')", "        if tzid == 'UTC':\n            s += \"Z\"\n        elif tzid:\n            self.params.update({'TZID': tzid})\n        return s.encode('utf-8')"))
+M("c10-to-ical-caches-on-self", "C10", "C10/PURE",
+  (C, "        content_lines = self.content_lines(sorted=sorted)\n        return content_lines.to_ical()", "        content_lines = self.content_lines(sorted=sorted)\n        self._last_ical = content_lines.to_ical()\n        return self._last_ical"))
+M("c10-vtext-memo", "C10", "C10/PURE",
+  (PR, "    def to_ical(self) -> bytes:\n        return escape_char(self).encode(self.encoding)", "    def to_ical(self) -> bytes:\n        self.params['X-SEEN'] = '1'\n        return escape_char(self).encode(self.encoding)"))
+M("c10-revert-sorted-missing", "C10", "C10/HASHSEED",
+  (C, "for tzid in sorted(self.get_missing_tzids()):", "for tzid in self.get_missing_tzids():"))
+M("c10-list-of-set", "C10", "silent",
+  (C, "        return result - {None}", "        return set(list(result - {None}))"), note="harmless: wrapped back into a set")
+M("c10-used-tzids-as-list", "C10", "C10/HASHSEED",
+  (C, "        tzids = self.get_used_tzids()\n        for timezone in self.timezones:", "        tzids = self.get_used_tzids()\n        ordered = [t for t in tzids]\n        for timezone in self.timezones:"))
+M("c10-sort-unconditional-removed", "C10", "C10/SORT-FLAG",
+  (P, "        if sorted:\n            items.sort()\n", ""))
+M("c10-flag-not-passed-content-line", "C10", "C10/SORT-FLAG",
+  (C, "            cl = self.content_line(name, value, sorted=sorted)", "            cl = self.content_line(name, value)"))
+M("c10-flag-not-passed-recursion", "C10", "C10/SORT-FLAG",
+  (C, "                properties += subcomponent.property_items(sorted=sorted)", "                properties += subcomponent.property_items()"))
+M("c10-flag-not-passed-params", "C10", "C10/SORT-FLAG",
+  (P, "            params = to_unicode(params.to_ical(sorted=sorted))", "            params = to_unicode(params.to_ical())"))
+M("c10-end-before-subcomponents", "C10", "C10/BALANCED",
+  (C, "        if recursive:\n            # recursion is fun!\n            for subcomponent in self.subcomponents:\n                properties += subcomponent.property_items(sorted=sorted)\n        properties.append(('END', vText(self.name).to_ical()))",
+      "        properties.append(('END', vText(self.name).to_ical()))\n        if recursive:\n            # recursion is fun!\n            for subcomponent in self.subcomponents:\n                properties += subcomponent.property_items(sorted=sorted)"))
+M("c10-first-value-only", "C10", "C10/BALANCED",
+  (C, "                for value in values:\n                    properties.append((name, value))", "                for value in values[:1]:\n                    properties.append((name, value))"))
+M("c10-lowercase-canonical", "C10", "C10/SORT-FLAG",
+  (C, "    canonical_order = ('VERSION', 'PRODID', 'CALSCALE', 'METHOD',)", "    canonical_order = ('version', 'PRODID', 'CALSCALE', 'METHOD',)"))
+M("c10-twin-rename-flag-kw", "C10", "silent",
+  (C, "        content_lines = self.content_lines(sorted=sorted)", "        content_lines = self.content_lines(sorted)"))
+
+# ---------------------------------------------------------------- C18
+M("c18-revert-discard", "C18", "C18/TOTAL",
+  (C, "            if 'TZID' in timezone:\n                tzids.discard(timezone.tz_name)", "            tzids.remove(timezone.tz_name)"))
+M("c18-revert-tzid-guard", "C18", "C18/TOTAL",
+  (C, "            if 'TZID' in timezone:\n                tzids.discard(timezone.tz_name)", "            tzids.discard(timezone.tz_name)"))
+M("c18-not-recursive", "C18", "C18/COVER",
+  (C, "        for name, value in self.property_items(sorted=False):", "        for name, value in self.property_items(recursive=False, sorted=False):"))
+M("c18-only-dt-names", "C18", "C18/COVER",
+  (C, "            if hasattr(value, \"params\"):\n                result.add(value.params.get(\"TZID\"))", "            if name.startswith('DT') and hasattr(value, \"params\"):\n                result.add(value.params.get(\"TZID\"))"))
+M("c18-cleaned-id", "C18", "C18/CLOSE",
+  (C, "                timezone = Timezone.from_tzid(\n                    tzid,", "                timezone = Timezone.from_tzid(\n                    tzid.strip('/'),"))
+M("c18-from-tzid-cleans", "C18", "C18/CLOSE",
+  (C, "        tz = tzp.timezone(tzid)\n        if tz is None:\n            raise ValueError(f\"Unkown timezone {tzid}.\")", "        tzid = tzp.clean_timezone_id(tzid)\n        tz = tzp.timezone(tzid)\n        if tz is None:\n            raise ValueError(f\"Unkown timezone {tzid}.\")"))
+M("c18-unknown-aborts", "C18", "C18/CLOSE",
+  (C, "            except ValueError:\n                continue\n            self.add_component(timezone)", "            except ValueError:\n                break\n            self.add_component(timezone)"))
+M("c18-first-list-value-only", "C18", "C18/COVER",
+  (C, "                for value in values:\n                    properties.append((name, value))", "                for value in values[:1]:\n                    properties.append((name, value))"))
+M("c18-twin-rename", "C18", "silent",
+  (C, "        result = set()\n        for name, value in self.property_items(sorted=False):\n            if hasattr(value, \"params\"):\n                result.add(value.params.get(\"TZID\"))\n        return result - {None}",
+      "        found = set()\n        for prop_name, prop_value in self.property_items(sorted=False):\n            if hasattr(prop_value, \"params\"):\n                found.add(prop_value.params.get(\"TZID\"))\n        return found - {None}"))
